@@ -242,3 +242,100 @@ Proof.
   d_cons fs z. d_int z i. d_nil fs.
   destruct Ha as (Hr & _). apply vector_get_good; assumption.
 Qed.
+
+(* ---------------------------------------------------------------- encoding of lanes *)
+Lemma le_bytes_length n v : length (le_bytes n v) = n.
+Proof. revert v. induction n as [|n IH]; intros v; cbn [le_bytes length]; [reflexivity|]. rewrite IH. reflexivity. Qed.
+
+Lemma le_bytes_ok n v : bytes_ok (le_bytes n v).
+Proof.
+  unfold bytes_ok. revert v. induction n as [|n IH]; intros v; cbn [le_bytes]; constructor.
+  - apply Z.mod_pos_bound. lia.
+  - apply IH.
+Qed.
+
+Lemma push_lane_length w v : 0 <= w -> blen (push_lane w v) = w.
+Proof. intros Hw. unfold blen, push_lane. rewrite le_bytes_length. lia. Qed.
+
+Lemma push_lane_ok w v : bytes_ok (push_lane w v).
+Proof. apply le_bytes_ok. Qed.
+
+Lemma encode_lanes_cons w v vs : encode_lanes w (v :: vs) = push_lane w v ++ encode_lanes w vs.
+Proof. reflexivity. Qed.
+
+Lemma encode_lanes_length w vs : 0 <= w -> blen (encode_lanes w vs) = Z.of_nat (length vs) * w.
+Proof.
+  intros Hw. unfold blen. induction vs as [|v vs IH]; [reflexivity|].
+  rewrite encode_lanes_cons, app_length, Nat2Z.inj_add, IH.
+  fold (blen (push_lane w v)). rewrite push_lane_length by exact Hw.
+  cbn [length]. lia.
+Qed.
+
+Lemma encode_lanes_ok w vs : bytes_ok (encode_lanes w vs).
+Proof.
+  unfold bytes_ok. induction vs as [|v vs IH]; [constructor|].
+  rewrite encode_lanes_cons. apply Forall_app. split; [apply push_lane_ok | exact IH].
+Qed.
+
+Lemma lane_ok_fits w v : w = 4 \/ w = 8 -> in_i64 v && fits v w = lane_ok w v.
+Proof.
+  intros [->| ->]; unfold lane_ok, in_i64, fits, two63.
+  - change (8 * 4 - 1) with 31. cbn [Z.eqb Pos.eqb].
+    destruct (Z.leb_spec (- 2 ^ 31) v); destruct (Z.ltb_spec v (2 ^ 31));
+      destruct (Z.leb_spec (- 2 ^ 63) v); destruct (Z.ltb_spec v (2 ^ 63)); try reflexivity; lia.
+  - change (8 * 8 - 1) with 63. cbn [Z.eqb Pos.eqb]. apply andb_true_r.
+Qed.
+
+(* ---------------------------------------------------------------- push *)
+Lemma length_zero_nil {A} (l : list A) : Z.of_nat (length l) = 0 -> l = [].
+Proof. destruct l; [reflexivity|cbn [length]; lia]. Qed.
+
+Lemma vector_push_good r w v : wf r ->
+  flatten_out (impl_vector_push (BTup [BBin r; BInt w; BInt v]))
+  = spec_vector_push (FTup [FBin (bytes_of r); FInt w; FInt v])
+  /\ wf_out (impl_vector_push (BTup [BBin r; BInt w; BInt v])).
+Proof.
+  intros Hr. unfold impl_vector_push, spec_vector_push.
+  rewrite checked_width_spec.
+  destruct (width_ok w) eqn:Hw; cbn [negb obind]; [|split; [reflexivity|exact I]].
+  apply width_ok_cases in Hw. pose proof (width_pos w Hw) as Hwp.
+  rewrite (lane_ok_fits w v Hw).
+  rewrite <- (blen_bytes_of r Hr).
+  pose proof (wf_blen r Hr) as HL.
+  destruct (lane_ok w v); cbn [negb andb]; [|split; [reflexivity|exact I]].
+  destruct (Z.eqb_spec (blen (bytes_of r) mod w) 0) as [Hm|Hm]; cbn [negb];
+    [|split; [reflexivity|exact I]].
+  assert (Hwmax : w <= MAX_BINARY_SIZE) by (unfold MAX_BINARY_SIZE; lia).
+  pose proof (push_lane_length w v ltac:(lia)) as Hpl. unfold blen in Hpl.
+  destruct (Z.eqb_spec (blen (bytes_of r)) 0) as [Hz|Hz].
+  - (* empty vector *)
+    rewrite alloc_ok by (cbn [rlen]; lia).
+    apply length_zero_nil in Hz. rewrite Hz. change (blen []) with 0.
+    destruct (Z.leb_spec (0 + w) MAX_BINARY_SIZE) as [_|Hbad]; [|lia].
+    cbn [flatten_out flatten bytes_of wf_out wf_bval wf app encode_lanes flat_map].
+    split; [unfold push_lane; rewrite app_nil_r; reflexivity|].
+    split; [apply push_lane_ok | lia].
+  - assert (Hu : in_u64 (blen (bytes_of r) + w) = true).
+    { unfold in_u64. assert (HM : MAX_BINARY_SIZE + 8 < two64) by reflexivity.
+      assert (Hw8 : w <= 8) by lia.
+      destruct (Z.leb_spec 0 (blen (bytes_of r) + w)); [|lia].
+      destruct (Z.ltb_spec (blen (bytes_of r) + w) two64); [reflexivity|lia]. }
+    rewrite Hu. cbn [negb].
+    assert (Hrl : rlen (mk_concat r (Owned (push_lane w v))) = blen (bytes_of r) + w).
+    { unfold mk_concat. cbn [rlen]. rewrite (blen_bytes_of r Hr). lia. }
+    destruct (Z.leb_spec (blen (bytes_of r) + w) MAX_BINARY_SIZE) as [Hfit|Hbig].
+    + rewrite alloc_ok by lia.
+      cbn [flatten_out flatten wf_out wf_bval]. rewrite mk_concat_bytes. cbn [bytes_of].
+      split.
+      * rewrite encode_lanes_cons. cbn [encode_lanes flat_map]. rewrite app_nil_r. reflexivity.
+      * apply mk_concat_wf; [exact Hr | | cbn [rlen]; rewrite <- (blen_bytes_of r Hr); lia].
+        cbn [wf]. split; [apply push_lane_ok | lia].
+    + rewrite alloc_too_big by lia. split; [reflexivity|exact I].
+Qed.
+
+Theorem vector_push_correct : agrees impl_vector_push spec_vector_push.
+Proof.
+  intros a Ha. d_tup a fs. d_cons fs x. d_bin x r. d_cons fs y. d_int y w.
+  d_cons fs z. d_int z v. d_nil fs.
+  destruct Ha as (Hr & _). apply vector_push_good; assumption.
+Qed.
